@@ -440,7 +440,7 @@ def Presented (dia : Dialect) (c : Ctx) (s : Str) (q : Bool) (out : Str) : Prop 
     out = wrapLf wrap ++ renderValue p s' ∧ admissible dia p s' = true ∧ (p = .text → wrap = true)
     ∧ (∀ col, col ≤ c.lastColumn → linesFit col out = true)
     ∧ (p ≠ .text → s' = s) ∧ (p = .text → Model.Decode.decodeText true true s' = s)
-    ∧ (p = .bare → q = false ∧ s.head? ≠ some 59)
+    ∧ (p = .bare → q = false ∧ s.head? ≠ some 59 ∧ recommend s (!q) (!c.isCif1) LINE = .none)
 
 theorem linesFit_wrap_noeol (wrap : Bool) (t : Str) (col : Nat) (hcol : col ≤ LINE) (ht : t.all (fun x => !isEol x) = true) :
     linesFit col (wrapLf wrap ++ t) = true := by
@@ -477,7 +477,7 @@ theorem writeChar_presented_nontext (c : Ctx) (s : Str) (q : Bool) (out : Str) (
       exact linesFit_wrap_noeol _ s col (by omega) (noeol_all s hno)
     · intro _
       have := (C18_delim_permitted s (!q) (!c.isCif1) LINE).1 hrec
-      exact ⟨by simpa using this, h59⟩
+      exact ⟨by simpa using this, h59, hrec⟩
   | apos =>
     have hd1 : (analyze s (!q) (!c.isCif1) LINE).delimLength = 1 := by rw [hlen, hrec]; rfl
     rw [writeChar_delim1 c s q true hv hd1] at h
